@@ -2,6 +2,7 @@
 import json
 import os
 import subprocess
+import time
 from concurrent.futures import ThreadPoolExecutor
 
 from verif import (EVIDENCE, REPLAYS, Infra, Verdict, Work, build_driver, goenv, load_known, log, match_known,
@@ -26,6 +27,20 @@ def design(work, verdict):
                        "InvSearchUnderLock", "deadlock freedom"],
         "liveness": "Terminates", "negative_controls_refuted": refuted, "wall_s": round(r.wall, 1),
     }
+
+
+def prove(work, verdict):
+    """Unbounded part of the design argument: TLAPS proves that the lock discipline and "search under
+    the read lock" are inductive for any sets of writers and readers (spec/RepositoryProof.tla, the
+    guard/effect operators of Repository.tla); a variant whose TLock guard ignores the readers must
+    fail. The proof is about the specification only: its outcome is recorded, it never decides the
+    verdict."""
+    import proofs
+    verdict.coverage["unbounded_proof"] = proofs.tlaps(
+        work, "RepositoryProof", ["Repository.tla"],
+        "Spec => []Safe (LockDiscipline, SearchUnderLock) for any sets Writers, Readers",
+        neg=("RepositoryProof.tla", "GTLock(st, w) /\\ st' = ETLock", "st.kmu = w /\\ st.tmu = None /\\ st' = ETLock",
+             "TLock without the readers guard"))
 
 
 def judge(work, trace, tag=""):
@@ -114,12 +129,14 @@ def run(tier, seed, replay):
         quick = tier == "quick"
         rounds, writers, readers, ops, lookups = (4, 4, 6, 60, 300) if quick else (40, 6, 8, 120, 500)
         trace = work.path("trace.ndjson")
-        with ThreadPoolExecutor(max_workers=4) as ex:
+        with ThreadPoolExecutor(max_workers=5) as ex:
             d = ex.submit(design, work, verdict)
+            pf = ex.submit(prove, work, verdict)
             s = ex.submit(stress, binary, trace, seed, rounds, writers, readers, ops, lookups)
             rr = ex.submit(race_run, work, seed, 2 if quick else 12)
             sg = ex.submit(gen_schedules, work, seed, 150 if quick else 4000)
             d.result()
+            pf.result()
             sched, nsched = sg.result()
             try:
                 log(s.result().strip())
